@@ -4,6 +4,8 @@ CONSTANTS
   MaxView = 2
   Height = 1
   InitSilentSets <- SilentAny
+  BugQuorum = FALSE
+  BugNoCommitLock = FALSE
   MaxSilentChanges = 3
   Depth = 30
 INVARIANT Emit
